@@ -49,6 +49,7 @@ structure KState where
   ty : Ty
   ts : Nat                 -- tm: ns, bsc/eth: s
   dig : String
+  vb : Bool := true        -- ConsensusState.ValidateBasic() == nil (only a Tendermint one can fail: root, hash, time)
   deriving DecidableEq, Repr
 
 /-- keys of a client store ("clients/<name>/…") -/
@@ -186,7 +187,8 @@ structure Proposal where
 
 /-- `ValidateBasic` of the three client proposals (title/description are constants of the harness) -/
 def validateBasic (p : Proposal) : Bool :=
-  validName p.name && (match p.cs with | some c => c.valid | none => false)
+  validName p.name && (match p.cs with | some c => c.valid | none => false) &&
+    (match p.ks with | some k => k.vb | none => false)
 
 def createClient (s : St) (n : Name) (c : CState) (k : KState) : Outcome St :=
   match initClient (set s n .cs (.cstate c)) n c k with
@@ -244,8 +246,23 @@ def commit (s : St) (o : Outcome St) : St × Res :=
   | .err _ => (s, .err)
   | .panic _ => (s, .panic)
 
+/-- the stateless stage, per kind: `CreateClientProposal.ValidateBasic`, `UpgradeClientProposal.ValidateBasic`,
+    `ToggleClientProposal.ValidateBasic` (x/xibc/core/client/types/proposal.go) are three separate functions; each
+    validates the name, unpacks and `Validate()`s the proposal's client state, then unpacks the consensus state and
+    calls its `ValidateBasic()` (since fafdbf1). `MsgSubmitProposal.ValidateBasic` runs them at submission; nothing downstream re-validates the client state. -/
+def validateCreate (p : Proposal) : Bool := validateBasic p
+def validateUpgrade (p : Proposal) : Bool := validateBasic p
+def validateToggle (p : Proposal) : Bool := validateBasic p
+
+def validateContent (p : Proposal) : Bool :=
+  match p.kind with
+  | .create => validateCreate p
+  | .upgrade => validateUpgrade p
+  | .toggle => validateToggle p
+
+/-- submission (`validateContent`), then the routed handler on a cache context written only on success -/
 def govExec (s : St) (p : Proposal) : St × Res :=
-  if !validateBasic p then (s, .err) else commit s (handle s p)
+  if !validateContent p then (s, .err) else commit s (handle s p)
 
 structure RelayerProposal where
   address : String
